@@ -64,6 +64,9 @@ def run_C07(ctx):
 
 
 def run_C01(ctx):
+    ref_run(ctx, "corectx", ["corectx", "--n", n_cases(ctx, 300, 10000)],
+            "package core: block context from a header, BLOCKHASH lookup through header chains (gaps, probes in any order, lookups counted), transaction context and the message view "
+            "handed to Aspects, against go-ethereum v1.12.0's core on the same headers and messages", oracle_prefix="C01")
     ref_run(ctx, "diffref", ["diffref", "--n", n_cases(ctx, 700, 15000)],
             "artela-evm vm vs go-ethereum v1.12.0 core/vm on generated programs (results, post-state root, logs, refund, self-destructs, debug events)",
             nontrivial=lambda c: c.get("steps", 0) >= 5)
@@ -86,6 +89,10 @@ def execref_run(ctx, quick=600, thorough=15000):
 
 
 def run_C02(ctx):
+    corr_run(ctx, "callgas", ["callgas", "--n", n_cases(ctx, 700, 20000)],
+             "Model/CallGas.v (forwarded gas = min(request, all but one 64th of what is left) from EIP-150, the request before; callee gas = forwarded + stipend) vs every "
+             "CALL/CALLCODE/DELEGATECALL/STATICCALL instruction of generated executions on all 13 rule sets (gas before, total charge, 256-bit request, evm.callGasTemp, gas the callee frame is announced with)",
+             nontrivial=lambda c: True, has_oracle=True, oracle_prefix="C02")
     ref_run(ctx, "diffref", ["diffref", "--mode", "gas", "--n", n_cases(ctx, 800, 8000)],
             "per-step gas/cost stream, frame gas hand-over, refund and leftover gas vs go-ethereum v1.12.0, re-run at gas limits one below / on / one above intermediate gas values",
             nontrivial=lambda c: c.get("steps", 0) >= 3)
@@ -292,7 +299,7 @@ PROPS = {
         "technique": "Coq theorems over regenerated facts (gas functions, constants and table entries identical to go-ethereum v1.12.0) + differential per-step gas comparison at boundary gas limits",
         "level_text": "Same regenerated-facts theorems as C01 (every gas function, constant-gas entry and dynamic-gas symbol identical to upstream or reviewed). The differential run compares, for every executed step, "
                       "(pc, opcode, gas before, cost, depth), the gas handed to and back by every frame (enter/exit events), the refund counter and the leftover gas, and re-runs each program with gas limits one unit short of, "
-                      "exactly on and one unit above randomly chosen intermediate gas values, so that out-of-gas must strike at the same instruction.",
+                      "exactly on and one unit above randomly chosen intermediate gas values, so that out-of-gas must strike at the same instruction. The gas a CALL-family instruction forwards (callGas, EIP-150) and the gas its callee frame starts with (stipend) are modelled (Model/CallGas.v): forwarded = min(request, all but one 64th of what is left) for every 256-bit request, and checked against every such instruction of generated executions on all 13 rule sets.",
         "level_note": COMMON_NOTE + REF_NOTE,
         "rule": "as C01; every case is followed by 2 (quick) / 6 (thorough) x 3 boundary gas limits; warm/cold access-list states arise from the calls inside the programs and StateDB.Prepare; non-trivial = at least 3 executed steps",
         "modelled": [],
